@@ -34,17 +34,22 @@ Level 3 (combine_simulation_results / combine_simulation_parameters): one or
     operand 2" and equal one object fed the same observations; operands must be
     unchanged.  Per-variation histories include the EMPTY history (a result
     never updated) at the first / middle / last variation of either operand or
-    everywhere, for every type, CHOICETYPE with 2, 3 and 5 choices.
+    everywhere, for every type, CHOICETYPE with 2, 3 and 5 choices.  Operands
+    are also built on parameter objects that were read and then EDITED through
+    the public writers (item assignment, add, remove + add).
 """
+import contextlib
 import copy
 import itertools
+import os
+import traceback
 
 import numpy as np
 
 from vmc import bfs
 from vmc import common
 from vmc.parallel import run_shards, shard
-from vmc.report import Check
+from vmc.report import Broken, Check
 
 PID = "C06"
 LEVEL = "model_checking"
@@ -62,7 +67,9 @@ RULE = ("result level: every observation sequence of length <= L over the per-ty
         "scalar) checked against a brute-force filter on the union and on both operands; empty (never updated) "
         "per-variation histories at the first / middle / last variation of either operand or everywhere x every "
         "type x CHOICE with 2/3/5 choices, each combined result also compared with one object fed the same "
-        "observations. Oracles: sufficient-statistics reference model, one object fed the whole "
+        "observations; operands built on parameter objects that were read and then edited through the public "
+        "writers (item assignment / add / remove+add). Oracles (public API only: get_result, num_updates, mean, var, "
+        "accumulated lists, to_dict for value / total): sufficient-statistics reference model, one object fed the whole "
         "sequence, operand snapshots after every merge. A case is non-trivial when it executes at least one "
         "merge/append/combine; distinct = distinct (level, types, accumulate, observations, term)")
 
@@ -127,7 +134,7 @@ def canon(x, depth=0):
         return ("S", tuple(sorted((canon(e, depth + 1) for e in x), key=repr)))
     if isinstance(x, dict):
         return ("D", tuple(sorted(((repr(k), canon(v, depth + 1)) for k, v in x.items()))))
-    if hasattr(x, "__dict__"):
+    if hasattr(x, "__dict__") or any("__slots__" in k.__dict__ for k in type(x).__mro__):
         return ("O", type(x).__name__, canon(bfs.state_of(x), depth + 1))
     return ("?", repr(x))
 
@@ -220,12 +227,141 @@ def same_obs_value(a, b):
         return False
 
 
-def compare(got, ref, acc, lists=True, misc_counts=False):
-    """field-by-field comparison of a real Result with the reference model.
-    Returns a list of (field, observed, expected)."""
-    R = _R()
+MISSING = object()
+VERIF_ROOT = os.path.dirname(os.path.dirname(os.path.abspath(__file__)))
+
+
+def _origin(exc):
+    """'library' if the innermost frame that belongs to pyphysim or to /verif is pyphysim's, else 'check'"""
+    for fr in reversed(traceback.extract_tb(exc.__traceback__)):
+        fn = os.path.abspath(fr.filename)
+        if fn.startswith(VERIF_ROOT + os.sep):
+            return "check"
+        if "/pyphysim/" in fn:
+            return "library"
+    return "check"
+
+
+@contextlib.contextmanager
+def guard(c, sig_prefix, case):
+    """c.guard for VALID calls: an exception raised inside pyphysim is a
+    violation; an exception whose innermost own frame is this check's code
+    (an attribute it assumed, a shape it did not expect) means the CHECK is
+    broken (exit 2) - never a verdict about the property."""
+    with c.guard(sig_prefix, case):
+        try:
+            yield
+        except (KeyboardInterrupt, SystemExit, Broken):
+            raise
+        except BaseException as e:  # noqa
+            if _origin(e) == "check":
+                fr = traceback.extract_tb(e.__traceback__)[-1]
+                raise Broken("check code raised %s: %s at %s:%s %s (case %s)" % (
+                    type(e).__name__, e, os.path.basename(fr.filename), fr.lineno, fr.name,
+                    {k: v for k, v in (case or {}).items() if k in ("level", "type", "term_str", "types", "universe")}))
+            raise
+
+
+def _private(obj, *names, default=MISSING):
+    """an attribute the library does not promise (tolerant): first candidate that exists"""
+    for n in names:
+        try:
+            return getattr(obj, n)
+        except AttributeError:
+            continue
+    return default
+
+
+def pubdict(r):
+    """the public dictionary representation of a Result (or None)"""
+    try:
+        d = r.to_dict()
+        return d if isinstance(d, dict) else None
+    except (AttributeError, NotImplementedError, TypeError):
+        return None
+
+
+def finer(c, r, key, *private_names, d=MISSING):
+    """`value` / `total` of a Result.  The property names them, the class has no
+    getter for them: they are read from the PUBLIC dictionary representation
+    (`to_dict()[key]`), else from a private attribute if one of the candidate
+    names exists, else the relation is skipped and counted
+    (`oracle_input_unavailable`) - never an AttributeError with a property signature."""
+    if d is MISSING:
+        d = pubdict(r)
+    if d is not None and key in d:
+        return d[key]
+    v = _private(r, *private_names)
+    if v is MISSING and c is not None:
+        c.count("oracle_input_unavailable")
+        c.outcome("oracle_input_unavailable", key)
+    return v
+
+
+def as_int(x):
+    """integer VALUE of an int-like (int, numpy integer, integral float); None otherwise"""
+    try:
+        if isinstance(x, (bool, np.bool_, str)):
+            return None
+        f = float(x)
+        return int(f) if f == int(f) else None
+    except (TypeError, ValueError, OverflowError):
+        return None
+
+
+def as_floats(x, n):
+    """n numbers out of any sequence / array; None if it is not one"""
+    try:
+        a = np.asarray(x, dtype=float).ravel()
+    except (TypeError, ValueError):
+        return None
+    return a.tolist() if a.size == n else None
+
+
+def acc_lists(r):
+    """accumulated values / totals through the public accessors"""
+    try:
+        return list(r.get_result_accumulated_values()), list(r.get_result_accumulated_totals())
+    except AttributeError:
+        v, t = _private(r, "_value_list"), _private(r, "_total_list")
+        return (None if v is MISSING else list(v)), (None if t is MISSING else list(t))
+
+
+_NOTHING = {}
+
+
+def nothing_yet(t, k=None):
+    """what get_result() of a NEVER-updated result of this type answers (the
+    library's convention, whatever it is - taken from a fresh object)"""
+    key = (t, k)
+    if key not in _NOTHING:
+        _NOTHING[key] = new_result(t, False, "r", k).get_result()
+    return _NOTHING[key]
+
+
+def same_answer(a, b):
+    """two get_result() answers denote the same value (type of number / container not compared)"""
+    if isinstance(a, str) or isinstance(b, str):
+        return isinstance(a, str) and isinstance(b, str) and a == b
+    if a is None or b is None:
+        return a is None and b is None
+    try:
+        x, y = np.asarray(a), np.asarray(b)
+        if x.dtype == object or y.dtype == object:
+            return same_obs_value(a, b)
+        return x.shape == y.shape and bool(np.all((x == y) | ((x != x) & (y != y))))
+    except Exception:  # noqa
+        return same_obs_value(a, b)
+
+
+def compare(got, ref, acc, lists=True, misc_counts=False, c=None):
+    """comparison of a real Result with the reference model through the public
+    API (get_result, num_updates, type_code, mean, var, accumulated lists,
+    to_dict for value / total).  Values are compared as VALUES (not by Python /
+    numpy type).  Returns a list of (field, observed, expected)."""
     bad = []
     t = ref.t
+    k = len(ref.value) if t == "CHOICE" else None
 
     def chk_(field, o, e, ok):
         if not ok:
@@ -233,76 +369,103 @@ def compare(got, ref, acc, lists=True, misc_counts=False):
 
     chk_("type_code", got.type_code, type_code(t), got.type_code == type_code(t))
     if t != "MISC" or misc_counts:
-        chk_("num_updates", got.num_updates, ref.n, type(got.num_updates) is int and got.num_updates == ref.n)
+        chk_("num_updates", got.num_updates, ref.n, as_int(got.num_updates) == ref.n)
     res = got.get_result()
     exp = ref.result()
+    gd = pubdict(got)
+    value = finer(c, got, "value", "_value", "value", d=gd)
+    total = finer(c, got, "total", "_total", "total", d=gd)
+    if c is not None:
+        c.count("value_total_relations_checked", int(value is not MISSING) + int(total is not MISSING))
     if t == "MISC":
         # last observation wins
         if ref.n == 0:
-            chk_("get_result", res, exp, isinstance(res, str) and res == exp)
+            chk_("get_result", res, nothing_yet(t), same_answer(res, nothing_yet(t)))
         else:
             chk_("get_result", res, exp, same_obs_value(res, exp))
     elif ref.n == 0:
-        chk_("get_result", res, exp, isinstance(res, str) and res == exp)
-        if t == "CHOICE":
-            chk_("value", got._value, ref.value, np.shape(got._value) == (len(ref.value),)
-                 and list(np.asarray(got._value).tolist()) == ref.value)
-        else:
-            chk_("value", got._value, 0, feq(got._value, 0))
-        chk_("total", got._total, 0, feq(got._total, 0))
+        chk_("get_result", res, nothing_yet(t, k), same_answer(res, nothing_yet(t, k)))
+        if value is not MISSING:
+            if t == "CHOICE":
+                chk_("value", value, ref.value, as_floats(value, k) == [float(v) for v in ref.value])
+            else:
+                chk_("value", value, 0, feq(value, 0))
+        if total is not MISSING:
+            chk_("total", total, 0, feq(total, 0))
     else:
         if t == "CHOICE":
-            v = np.asarray(got._value)
-            chk_("value", got._value, ref.value, v.shape == (len(ref.value),) and v.dtype.kind in "iu"
-                 and v.tolist() == ref.value)
-            r = np.asarray(res)
-            chk_("get_result", res, exp, r.shape == (len(ref.value),)
-                 and all(feq(float(a), b) for a, b in zip(r.tolist(), exp)))
+            if value is not MISSING:
+                chk_("value", value, ref.value, as_floats(value, k) == [float(v) for v in ref.value])
+            r = as_floats(res, k) if not isinstance(res, str) else None
+            chk_("get_result", res, exp, r is not None and all(feq(a, b) for a, b in zip(r, exp)))
         else:
-            chk_("value", got._value, ref.value, feq(got._value, ref.value))
+            if value is not MISSING:
+                chk_("value", value, ref.value, feq(value, ref.value))
             chk_("get_result", res, exp, not isinstance(res, str) and feq(res, exp))
-        chk_("total", got._total, ref.total, feq(got._total, ref.total))
+        if total is not MISSING:
+            chk_("total", total, ref.total, feq(total, ref.total))
         mean = got.get_result_mean()
         var = got.get_result_var()
         emean = ref.s1 / ref.n
         evar = ref.s2 / ref.n - emean ** 2
         sc = max(1.0, ref.s2 / ref.n)
         chk_("mean", mean, emean, feq(mean, emean, 1.0))
-        chk_("var", var, evar, abs(float(var) - evar) <= 4 * REL_TOL * sc)
+        chk_("var", var, evar, feq(var, evar, 4 * sc))
     if lists:
-        if acc:
-            ok = len(got._value_list) == len(ref.vlist) and \
-                all(same_obs_value(a, b) for a, b in zip(got._value_list, ref.vlist))
-            chk_("value_list", got._value_list, ref.vlist, ok)
-            chk_("total_list", got._total_list, ref.tlist, list(got._total_list) == ref.tlist)
+        vl, tl = acc_lists(got)
+        if vl is None or tl is None:
+            if c is not None:
+                c.count("oracle_input_unavailable")
+                c.outcome("oracle_input_unavailable", "accumulated_lists")
+        elif acc:
+            ok = len(vl) == len(ref.vlist) and all(same_obs_value(a, b) for a, b in zip(vl, ref.vlist))
+            chk_("value_list", vl, ref.vlist, ok)
+            chk_("total_list", tl, ref.tlist, len(tl) == len(ref.tlist) and all(feq(a, b) for a, b in zip(tl, ref.tlist)))
         else:
-            chk_("value_list", got._value_list, [], got._value_list == [])
-            chk_("total_list", got._total_list, [], got._total_list == [])
-    chk_("accumulate_values_bool", got.accumulate_values_bool, acc, got.accumulate_values_bool is bool(acc)
-         or not lists)
+            chk_("value_list", vl, [], len(vl) == 0)
+            chk_("total_list", tl, [], len(tl) == 0)
+        chk_("accumulate_values_bool", got.accumulate_values_bool, acc, bool(got.accumulate_values_bool) == bool(acc))
     return bad
 
 
-def compare_objects(got, one, t, exact):
+def compare_objects(got, one, t, exact, c=None):
     """differential: the merged object against ONE object fed the whole
-    sequence.  Field names are those of `compare` so that one defect gives one
-    signature whichever oracle sees it first."""
+    sequence, through the same public observations.  Field names are those of
+    `compare` so that one defect gives one signature whichever oracle sees it first."""
     bad = []
-    fields = [("_total", "total"), ("_result_sum", "mean"), ("_result_squared_sum", "var")]
     if t != "MISC":
-        fields.append(("num_updates", "num_updates"))
-    for f, label in fields:
-        a, b = getattr(got, f), getattr(one, f)
-        if not feq(a, b, 1.0):
-            bad.append((label, "%s=%r" % (f, a), "%s=%r (one object fed everything)" % (f, b)))
-    if t == "CHOICE":
-        if not np.array_equal(got._value, one._value):
-            bad.append(("value", got._value, one._value))
-    elif t == "MISC":
-        if one.num_updates and not same_obs_value(got._value, one._value):
-            bad.append(("get_result", got._value, one._value))
-    elif not feq(got._value, one._value):
-        bad.append(("value", got._value, one._value))
+        if as_int(got.num_updates) != as_int(one.num_updates):
+            bad.append(("num_updates", got.num_updates, "%r (one object fed everything)" % (one.num_updates,)))
+        if as_int(one.num_updates):
+            for label, f in (("mean", "get_result_mean"), ("var", "get_result_var")):
+                a, b = getattr(got, f)(), getattr(one, f)()
+                if not feq(a, b, 1.0):
+                    bad.append((label, a, "%r (one object fed everything)" % (b,)))
+    gd, od = pubdict(got), pubdict(one)
+    ta, tb = finer(c, got, "total", "_total", "total", d=gd), finer(None, one, "total", "_total", "total", d=od)
+    if ta is not MISSING and tb is not MISSING and not feq(ta, tb, 1.0):
+        bad.append(("total", ta, "%r (one object fed everything)" % (tb,)))
+    va, vb = finer(c, got, "value", "_value", "value", d=gd), finer(None, one, "value", "_value", "value", d=od)
+    if va is not MISSING and vb is not MISSING:
+        if t == "CHOICE":
+            if not same_answer(va, vb):
+                bad.append(("value", va, vb))
+        elif t == "MISC":
+            if as_int(one.num_updates) and not same_obs_value(va, vb):
+                bad.append(("get_result", va, vb))
+        elif not feq(va, vb):
+            bad.append(("value", va, vb))
+    ra, rb = got.get_result(), one.get_result()
+    if t == "MISC":
+        if as_int(one.num_updates) and not same_obs_value(ra, rb):
+            bad.append(("get_result", ra, rb))
+    elif isinstance(ra, str) or isinstance(rb, str):
+        if not same_answer(ra, rb):
+            bad.append(("get_result", ra, rb))
+    else:
+        fa, fb = as_floats(ra, np.size(rb)), as_floats(rb, np.size(rb))
+        if fa is None or fb is None or not all(feq(x, y) or (x != x and y != y) for x, y in zip(fa, fb)):
+            bad.append(("get_result", ra, rb))
     if exact and t != "MISC":
         # the library's own equality (ignores num_updates); only asserted when
         # every partial sum is exactly representable
@@ -321,11 +484,41 @@ def dedup(bad):
 
 
 def summary(x):
-    """short human-readable state of a Result / SimulationResults (for messages)"""
-    if hasattr(x, "_results"):
-        return {n: [summary(r) for r in lst] for n, lst in x._results.items()}
-    v = x._value.tolist() if isinstance(x._value, np.ndarray) else x._value
-    return "value=%r total=%r num_updates=%r" % (v, x._total, x.num_updates)
+    """short human-readable public state of a Result / SimulationResults (for messages)"""
+    if hasattr(x, "get_result_names"):
+        return {n: [summary(r) for r in x[n]] for n in x.get_result_names()}
+    v = x.get_result()
+    v = v.tolist() if isinstance(v, np.ndarray) else v
+    return "get_result=%r num_updates=%r" % (v, x.num_updates)
+
+
+def _raw_state(x):
+    if hasattr(x, "get_result_names"):
+        names = sorted(x.get_result_names())
+        st = {"names": names, "results": {n: [_raw_state(r) for r in x[n]] for n in names}}
+        p = getattr(x, "params", None)
+        if p is not None:
+            st["params"] = p.parameters
+            st["unpacked"] = list(p.unpacked_parameters)
+        for a in ("runned_reps", "current_rep"):
+            st[a] = getattr(x, a, None)
+        return st
+    d = pubdict(x)
+    if d is not None:
+        # the dictionary representation holds every stored statistic
+        return (d, x.get_result())
+    st = {"name": x.name, "type": x.type_code, "n": as_int(x.num_updates), "result": x.get_result(),
+          "acc": bool(x.accumulate_values_bool), "lists": acc_lists(x)}
+    if as_int(x.num_updates) and x.type_code != _R().MISCTYPE:
+        st["mean"], st["var"] = x.get_result_mean(), x.get_result_var()
+    return st
+
+
+def public_state(x):
+    """what an operand IS for its users: the public dictionary representation
+    plus the public getters (not the private layout: a cache filled by a read
+    is not a mutation).  Used for the operand-unchanged snapshots."""
+    return canon(_raw_state(x))
 
 
 # ----------------------------------------------------------------------
@@ -439,13 +632,13 @@ class Exec:
         else:
             r = self.run(term[1])
             o = self.run(term[2])
-            snap = canon(bfs.state_of(o))
+            snap = public_state(o)
             info = summary(o)
             r.merge(o)
             self.merges += 1
             self.operands.append((o, snap, info))
             for (oo, ss, ii) in self.operands:
-                if canon(bfs.state_of(oo)) != ss and not self.mutated:
+                if public_state(oo) != ss and not self.mutated:
                     self.mutated.append((ii, ss, summary(oo)))
             self.c.outcome("result_states", dg(canon(bfs.state_of(r))))
         return r
@@ -458,7 +651,7 @@ def run_result_case(c, t, acc, obs, term):
     nm = n_merges(term)
     pure = nm == 0
     func = "Result.update" if pure else "Result.merge"
-    with c.guard((func, t), case):
+    with guard(c, (func, t), case):
         ex = Exec(c, t, acc, obs)
         got = ex.run(term)
         c.count("eval_result_terms")
@@ -467,9 +660,9 @@ def run_result_case(c, t, acc, obs, term):
         ref = Ref(t, obs)
         empty_op = has_empty_operand(term)
         variant = "empty_operand" if empty_op else "plain"
-        bad = compare(got, ref, acc)
+        bad = compare(got, ref, acc, c=c)
         one = fed(t, acc, obs)
-        bad = dedup(bad + compare_objects(got, one, t, dyadic(t, obs)))
+        bad = dedup(bad + compare_objects(got, one, t, dyadic(t, obs), c))
         if not pure:
             c.nontriv(("r", t, acc, repr(obs), term_str(term)))
         c.outcome("final_stats", ref.key())
@@ -569,7 +762,7 @@ def run_set_case(c, case):
     empty_acc = case["empty_acc"]
     skip = case.get("skip")           # list per chunk: None | int
     func = "merge_all_results" if op == "merge" else "append_all_results"
-    with c.guard((func,) + tuple(types), case):
+    with guard(c, (func,) + tuple(types), case):
         objs = []
         if empty_acc:
             objs.append(SimulationResults())
@@ -585,14 +778,14 @@ def run_set_case(c, case):
                 return objs[t]
             left = run(t[0])
             right = run(t[1])
-            snap = canon(bfs.state_of(right))
+            snap = public_state(right)
             info = "into_empty_accumulator" if len(left) == 0 else "into_nonempty_set"
             before = summary(right)
             getattr(left, func)(right)
             nops[0] += 1
             operands.append((right, snap, info, before))
             for (oo, ss, ii, bb) in operands:
-                if canon(bfs.state_of(oo)) != ss and ii not in [m[0] for m in mutated]:
+                if public_state(oo) != ss and ii not in [m[0] for m in mutated]:
                     mutated.append((ii, bb, summary(oo)))
             c.outcome("set_states", dg(canon(bfs.state_of(left))))
             return left
@@ -620,7 +813,7 @@ def run_set_case(c, case):
                 c.fail((func, t, "number_of_results", start), case, observed=len(lst), expected=len(exp))
                 continue
             for got, ref in zip(lst, exp):
-                for field, o, e in compare(got, ref, acc):
+                for field, o, e in compare(got, ref, acc, c=c):
                     c.fail((func, t, field, start), case, observed=o, expected=e,
                            msg="result %r" % name)
                 c.outcome("final_stats", ref.key())
@@ -647,14 +840,14 @@ def run_fold_case(c, case):
     types, acc, obs = case["types"], case["acc"], case["obs"]
     chunks = [tuple(x) for x in case["chunks"]]
     ops = case["ops"]                 # one of "m"/"a" per chunk (first: into the start accumulator)
-    with c.guard(("fold_merge_append",) + tuple(types), case):
+    with guard(c, ("fold_merge_append",) + tuple(types), case):
         accu = SimulationResults()
         model = {"a": [], "b": []}
         merged_in = []
         for ci, ((a, b), op) in enumerate(zip(chunks, ops)):
             obn = {n: [o[n] for o in obs[a:b]] for n in ("a", "b")}
             s = make_set(types, acc, obn, None)
-            snap, before = canon(bfs.state_of(s)), summary(s)
+            snap, before = public_state(s), summary(s)
             if op == "m":
                 accu.merge_all_results(s)
                 merged_in.append((s, snap, before, ci))
@@ -670,7 +863,7 @@ def run_fold_case(c, case):
             c.transitions += 1
             c.outcome("set_states", dg(canon(bfs.state_of(accu))))
             for (oo, ss, bb, k) in merged_in:
-                if canon(bfs.state_of(oo)) != ss:
+                if public_state(oo) != ss:
                     c.fail(("merge_all_results", "operand_mutated",
                             "into_empty_accumulator" if k == 0 else "into_nonempty_set"), case,
                            observed=summary(oo), expected=bb,
@@ -687,7 +880,7 @@ def run_fold_case(c, case):
                        observed=len(lst), expected=len(model[name]))
                 continue
             for pos, (got, mobs) in enumerate(zip(lst, model[name])):
-                for field, o, e in compare(got, Ref(t, mobs), acc):
+                for field, o, e in compare(got, Ref(t, mobs), acc, c=c):
                     where = "last" if pos == len(lst) - 1 else "earlier"
                     c.fail(("fold_merge_append", t, field, where + "_result"), case, observed=o, expected=e,
                            msg="result %r, list position %d of %d" % (name, pos, len(lst)))
@@ -829,8 +1022,14 @@ def empty_positions(spec, which, n):
     return set() if idx is None else {idx}
 
 
-def build_operand(t, acc, which, hv, universe, rxs, rys, order, empty=None, k=None):
-    """returns (SimulationResults, x ranks in stored order, y ranks or None)"""
+def build_operand(t, acc, which, hv, universe, rxs, rys, order, empty=None, k=None, via=None):
+    """returns (SimulationResults, x ranks in stored order, y ranks or None).
+    via = None: the parameters object is created with its final values.
+    via in {'setitem', 'add', 'remove_add'}: it first holds OTHER unpacked value
+    lists (of another length), is READ through every public reader, and only
+    then receives the final values through that public writer - the object a
+    user gets after editing a parameter; everything derived from it must be
+    what a freshly created object gives."""
     from pyphysim.simulations.parameters import SimulationParameters
     from pyphysim.simulations.results import SimulationResults
     R = _R()
@@ -842,10 +1041,37 @@ def build_operand(t, acc, which, hv, universe, rxs, rys, order, empty=None, k=No
     pd = {"f": 7, "x": represent(universe, which, "x", [U["X"][r] for r in rxs])}
     if rys is not None:
         pd["y"] = represent(universe, which, "y", [U["Y"][r] for r in rys])
-    p = SimulationParameters.create(pd)
-    p.set_unpack_parameter("x")
-    if rys is not None:
-        p.set_unpack_parameter("y")
+    if via:
+        def other(vals, full):
+            return list(full) if len(vals) < len(full) else list(full[:1])
+        stale = {"f": 7, "x": other(rxs, U["X"])}
+        if rys is not None:
+            stale["y"] = other(rys, U["Y"])
+        p = SimulationParameters.create(stale)
+        p.set_unpack_parameter("x")
+        if rys is not None:
+            p.set_unpack_parameter("y")
+        # every public reader once (whatever they may remember must not survive the writes below)
+        p.get_num_unpacked_variations()
+        p.get_pack_indexes({"x": stale["x"][0]})
+        p.get_unpacked_params_list()
+        _ = (p.unpacked_parameters, p.fixed_parameters, len(p), p.to_dict())
+        for name in ("x", "y"):
+            if name not in pd:
+                continue
+            if via == "setitem":
+                p[name] = pd[name]
+            elif via == "add":
+                p.add(name, pd[name])
+            else:
+                p.remove(name)
+                p.add(name, pd[name])
+                p.set_unpack_parameter(name)
+    else:
+        p = SimulationParameters.create(pd)
+        p.set_unpack_parameter("x")
+        if rys is not None:
+            p.set_unpack_parameter("y")
     s = SimulationResults()
     s.set_parameters(p)
     # documented order: unpacked names sorted, cartesian product, last name fastest
@@ -908,7 +1134,8 @@ def check_lookups(c, case, obj, label, universe, rxs, rys, tags):
                 c.fail(("get_pack_indexes", "wrong_indexes_for_fixed_values"), qcase, observed=got, expected=want)
                 continue
             vals = obj.get_result_values_list("tag", fixed_params=dict(fixed))
-            if list(vals) != [tags[i] for i in want]:
+            wantv = [tags[i] for i in want]
+            if len(vals) != len(wantv) or not all(same_answer(a, b) for a, b in zip(vals, wantv)):
                 c.fail(("get_result_values_list", "wrong_results_for_fixed_values"), qcase,
                        observed=vals, expected=[tags[i] for i in want])
             c.outcome("lookup_outcomes", ("found", len(want)))
@@ -935,21 +1162,27 @@ def run_union_case(c, case):
     x1, x2, y1, y2 = case["x1"], case["x2"], case["y1"], case["y2"]     # value RANKS
     empty = case.get("empty")           # which variations hold results that were never updated
     k = case.get("choice_num")
-    with c.guard(("combine_simulation_results", t), case):
-        s1, ox1, oy1 = build_operand(t, acc, 0, hv, universe, x1, y1, case["order"], empty, k)
-        s2, ox2, oy2 = build_operand(t, acc, 1, hv, universe, x2, y2, case["order"], empty, k)
+    with guard(c, ("combine_simulation_results", t), case):
+        via, via_ops = case.get("via"), case.get("via_operands") or []
+        s1, ox1, oy1 = build_operand(t, acc, 0, hv, universe, x1, y1, case["order"], empty, k,
+                                     via if 0 in via_ops else None)
+        s2, ox2, oy2 = build_operand(t, acc, 1, hv, universe, x2, y2, case["order"], empty, k,
+                                     via if 1 in via_ops else None)
+        if via:
+            c.outcome("union_edited_parameters", (via, tuple(via_ops)))
         ord1 = [(rx, ry) for rx in ox1 for ry in (oy1 if oy1 is not None else [None])]
         ord2 = [(rx, ry) for rx in ox2 for ry in (oy2 if oy2 is not None else [None])]
         emp1 = empty_positions(empty, 0, len(ord1))
         emp2 = empty_positions(empty, 1, len(ord2))
-        snap1, snap2 = canon(bfs.state_of(s1)), canon(bfs.state_of(s2))
+        snap1, snap2 = public_state(s1), public_state(s2)
         u = combine_simulation_results(s1, s2)
         c.count("eval_union_cases")
         c.transitions += 1
         c.traces_validated += 1
-        c.nontriv(("u", universe, t, acc, hv, repr((x1, x2, y1, y2)), case["order"], str(empty), k))
+        c.nontriv(("u", universe, t, acc, hv, repr((x1, x2, y1, y2)), case["order"], str(empty), k,
+                   case.get("via"), repr(case.get("via_operands"))))
         c.outcome("union_universes", universe)
-        if canon(bfs.state_of(s1)) != snap1 or canon(bfs.state_of(s2)) != snap2:
+        if public_state(s1) != snap1 or public_state(s2) != snap2:
             c.fail(("combine_simulation_results", "operand_mutated"), case,
                    observed="operand changed", expected="operands unchanged")
         # the universes are listed in increasing order, so rank order = value order
@@ -1003,13 +1236,13 @@ def run_union_case(c, case):
             outcome.append(int(in1) + 2 * int(in2))
             # the union is built from non-accumulating results: lists are not part of the law
             for field, o, e in compare(u["r"][i], ref, False, lists=False,
-                                       misc_counts=False):
+                                       misc_counts=False, c=c):
                 c.fail(("combine_simulation_results", t, field), dict(case, combo=[x, y]),
                        observed=o, expected=e,
                        msg="combination x=%r y=%r present in operand1=%s operand2=%s" % (x, y, in1, in2))
             # differential: ONE object fed the same observations (value / total / num_updates / sums / ==)
             one = fed(t, False, obs, "r", k)
-            for field, o, e in dedup(compare_objects(u["r"][i], one, t, dyadic(t, obs))):
+            for field, o, e in dedup(compare_objects(u["r"][i], one, t, dyadic(t, obs), c)):
                 c.fail(("combine_simulation_results", t, field), dict(case, combo=[x, y]),
                        observed=o, expected=e,
                        msg="against one object fed %r (combination x=%r y=%r)" % (obs, x, y))
@@ -1017,9 +1250,10 @@ def run_union_case(c, case):
                 c.outcome("union_empty_history_outcomes", (t, k, str(empty), len(obs) == 0))
             tagv = tag_of(rx, ry) * (int(in1) + int(in2))
             # a combination present in neither operand holds a never-updated result
-            utags.append(tagv if (in1 or in2) else "Nothing yet")
-            got = u["tag"][i]._value
-            if got != tagv:
+            utags.append(tagv if (in1 or in2) else nothing_yet("SUM"))
+            tagres = u["tag"][i]
+            got = tagres.get_result() if (in1 or in2) else as_int(tagres.num_updates)
+            if not feq(got, tagv):
                 c.fail(("combine_simulation_results", "alignment_with_unpack_order"),
                        dict(case, combo=[x, y]), observed=got, expected=tagv,
                        msg="result list is not aligned with the union's unpacked parameter order "
@@ -1032,7 +1266,7 @@ def run_union_case(c, case):
         # depend on the other operand: done while the other one is the first subset
         if case.get("lookups", True):
             first = lambda xr, yr: xr == [0] and yr in (None, [0])      # noqa: E731
-            with c.guard(("lookup_by_fixed_value",), case):
+            with guard(c, ("lookup_by_fixed_value",), case):
                 check_lookups(c, case, u, "union", universe, urx, ury, utags)
                 if first(x2, y2):
                     check_lookups(c, case, s1, "operand1", universe, ox1, oy1,
@@ -1070,6 +1304,15 @@ def union_cases(types_ok, tier):
                             yield {"level": "union", "universe": "int", "type": t, "acc": False, "hv": 0,
                                    "order": "asc", "x1": x1, "x2": x2, "y1": y1, "y2": y2, "empty": spec,
                                    "choice_num": kk, "lookups": False}
+    # operands whose parameters object was EDITED through a public writer after having been read
+    for via in ("setitem", "add", "remove_add"):
+        for ops in ([0], [1], [0, 1]):
+            for x1 in xs:
+                for x2 in xs:
+                    for y1, y2 in ((None, None), ([0, 1], [0, 1]), ([0], [0, 1])):
+                        yield {"level": "union", "universe": "int", "type": "SUM", "acc": False, "hv": 0,
+                               "order": "asc", "x1": x1, "x2": x2, "y1": y1, "y2": y2, "via": via,
+                               "via_operands": ops, "lookups": ops == [0, 1]}
     orders = ("asc", "desc")
     for universe in UNIVERSES:
         one_param_only = ()
@@ -1108,7 +1351,7 @@ def probe_choice(chk):
     R = _R()
     case = {"level": "probe", "what": "Result('c', Result.CHOICETYPE, choice_num=3).update(0)"}
     ok = []
-    with chk.guard(("Result.update", "CHOICETYPE"), case):
+    with guard(chk, ("Result.update", "CHOICETYPE"), case):
         r = R("c", R.CHOICETYPE, choice_num=CHOICE_NUM)
         r.update(0)
         ok.append(1)
@@ -1183,6 +1426,10 @@ def main(chk: Check):
 
     run_shards(chk, worker)
     chk.states = len(chk.outcomes.get("result_states", ())) + len(chk.outcomes.get("set_states", ()))
+    chk.extra["oracle_input_unavailable"] = chk.counters.get("oracle_input_unavailable", 0)
+    if chk.counters.get("value_total_relations_checked", 0) == 0:
+        raise Broken("vacuous: value / total of a Result could not be observed in any case "
+                     "(neither through to_dict() nor through a known attribute)")
     al = alphabets()
     chk.sample({"level": "result", "type": "RATIO", "acc": False, "obs": [al["RATIO"][0], al["RATIO"][2], al["RATIO"][1]],
                 "term_str": "(N.u0<-(N.u1<-N.u2))"})
@@ -1197,6 +1444,7 @@ def main(chk: Check):
     chk.require_outcomes("final_stats", 50)
     chk.require_outcomes("union_presence_patterns", 20)
     chk.require_outcomes("union_universes", len(UNIVERSES))
+    chk.require_outcomes("union_edited_parameters", 9)
     if choice_ok:
         chk.require_outcomes("union_empty_history_outcomes", 40)
     chk.require_outcomes("lookup_outcomes", 4)
